@@ -61,12 +61,46 @@ CORE_P = [1, 2]
 CORE_COMP = [0, 1, 2]
 CORE_Q = [0, 1]
 
-_th = None
-def _thermo():
-    global _th
-    if _th is None:
-        _th = fx.thermo('A')
-    return _th
+_ths = {}
+_PKG = 'ideal'
+def set_pkg(pkg):
+    """select the mixture model of PKG_A used by every helper below: 'ideal' (IdealMixture, thermosteam's default) or 'PR' (the
+    Peng-Robinson EOSMixture, whose solver scratch `mixture._free_energy_args` is REAL hidden state shared by every stream of the package)"""
+    global _PKG
+    _PKG = pkg
+
+def _thermo(pkg=None):
+    pkg = pkg or _PKG
+    if pkg not in _ths:
+        base = fx.thermo('A')
+        if pkg == 'ideal': _ths[pkg] = base
+        else:
+            tmo = fx.tmo()
+            _ths[pkg] = tmo.Thermo(base.chemicals, mixture=tmo.PRMixture.from_chemicals(base.chemicals))
+    return _ths[pkg]
+
+class clean_scratch:
+    """reference evaluations run with the mixture's solver scratch emptied (and put back afterwards): the reference must describe the
+    concrete state of a stream, not whatever an earlier solve on ANOTHER stream left in the shared mixture object"""
+    def __enter__(self):
+        self.fea = getattr(_thermo().mixture, '_free_energy_args', None)
+        self.saved = dict(self.fea) if self.fea is not None else None
+        if self.fea is not None: self.fea.clear()
+    def __exit__(self, *exc):
+        if self.fea is not None:
+            self.fea.clear(); self.fea.update(self.saved)
+
+def scratch_digest():
+    fea = getattr(_thermo().mixture, '_free_energy_args', None)
+    if not fea: return ()
+    out = []
+    for ph in sorted(fea):
+        try:
+            eos, eos_mol, kw = fea[ph]
+            out.append((ph, fx.r12(eos_mol), tuple(fx.r12(z) for z in kw.get('zs', ())), fx.r12(kw.get('P', 0.))))
+        except Exception:
+            out.append((ph, repr(type(fea[ph]))))
+    return tuple(out)
 
 
 _warmed = False
@@ -131,11 +165,20 @@ class Snap:
 def H_ref(sn, T=None):
     """kJ/hr: sum_phase sum_i n_i * H_i(phase, T, P)   (J/mol * kmol/hr)"""
     T = sn.T if T is None else T
+    if _PKG != 'ideal':
+        # EOS package: same mixture code, evaluated directly on the concrete state with an empty scratch (differential reference)
+        mix = _thermo().mixture
+        with clean_scratch():
+            return float(sum(mix.H(p, a, T, sn.P) for p, a in sn.flows.items() if a.any()))
     chems = _thermo().chemicals.tuple
     return float(sum(n * chems[i].H(p, T, sn.P) for p, a in sn.flows.items() for i, n in enumerate(a) if n))
 
 def C_ref(sn, T=None):
     T = sn.T if T is None else T
+    if _PKG != 'ideal':
+        mix = _thermo().mixture
+        with clean_scratch():
+            return float(sum(mix.Cn(p, a, T, sn.P) for p, a in sn.flows.items() if a.any()))
     chems = _thermo().chemicals.tuple
     return float(sum(n * chems[i].Cn(p, T) for p, a in sn.flows.items() for i, n in enumerate(a) if n))
 
@@ -150,7 +193,8 @@ def twin(sn, T=None):
     return mk_single(ph[0], T, sn.P, sn.flows[ph[0]])
 
 def S_twin(sn, T=None):
-    return float(twin(sn, T).S)
+    with clean_scratch():
+        return float(twin(sn, T).S)
 
 def noise(f, T, C_over=None):
     """float noise of a function of temperature near T: largest deviation from the secant through T-8d .. T+8d (d = 2e-3 K).
@@ -440,6 +484,7 @@ class MixGrid(System):
         return dict(points=sum(len(v) for v in self._acts.values()))
 
     def build(self, config):
+        set_pkg('ideal')
         return dict(config=config, done=False)
 
     def actions(self, st):
@@ -496,7 +541,8 @@ class SepGrid(System):
         k = seed % len(cf)
         return cf[k:] + cf[:k]
 
-    def build(self, config): return dict(config=config, done=False, tier=None)
+    def build(self, config):
+        set_pkg('ideal'); return dict(config=config, done=False, tier=None)
 
     def actions(self, st):
         if st['done']: return []
@@ -564,7 +610,8 @@ class SetterGrid(System):
         return cf[k:] + cf[:k]
 
     _sub = [1, 4, 6]
-    def build(self, config): return dict(config=config, done=False)
+    def build(self, config):
+        set_pkg('ideal'); return dict(config=config, done=False)
     def actions(self, st):
         if st['done']: return []
         acts = [(i, j, 0) for i in range(len(TGRID)) for j in range(len(TGRID))]
@@ -596,30 +643,41 @@ class History(System):
     #: states reached from different configs have identical futures and share one expansion
     merge_across_configs = True
 
-    def __init__(self, name, dq, dt, rich=True):
+    def __init__(self, name, dq, dt, rich=True, pkg='ideal', kinds=None):
         self.name = name; self._dq, self._dt = dq, dt
+        self.pkg = pkg; self.kinds = kinds
+        # temperatures of the set / setT / restore actions.  The EOS layer stays in the clearly gaseous region (T >= 400 K, P <= 2e5 Pa): where
+        # the cubic loses its vapour root the library silently swaps departure functions (try/except in EOSMixture.H) and H(T) is not a
+        # function the property speaks about
+        self.Tset, self.TsetT, self.Trest = ((300., 400.), 350., 330.) if pkg == 'ideal' else ((400., 460.), 430., 450.)
         self.rich = rich        # rich: full action alphabet; otherwise a reduced alphabet explored one level deeper
 
-    def warm(self): _warm()
-    def reset_globals(self): fx.reset_globals(_thermo())
+    def warm(self): _warm(); _thermo(self.pkg)
+    def reset_globals(self): fx.reset_globals(_thermo(self.pkg))
     def depth(self, tier): return self._dq if tier == 'quick' else self._dt
     def time_cap(self, tier): return 400 if tier == 'quick' else 1200
 
     def configs(self, tier, seed):
-        cf = [('l', 'l'), ('l', 'g'), ('l', 'm'), ('m', 'l'), ('g', 'g')]
+        cf = self.kinds or [('l', 'l'), ('l', 'g'), ('l', 'm'), ('m', 'l'), ('g', 'g')]
         k = seed % len(cf)
         return cf[k:] + cf[:k]
 
     def build(self, config):
+        set_pkg(self.pkg)
+        fea = getattr(_thermo().mixture, '_free_energy_args', None)
+        if fea is not None: fea.clear()          # the shared mixture object is hidden state: owned (emptied) at build, part of canon
         ka, kb = config
         T0 = {'l': 298.15, 'g': 420., 'm': 345.}
         a = mk_template(ka, T0[ka], 101325., (1., 2.5, 0.375))
-        b = mk_template(kb, T0[kb] + (20. if ka == kb else 0.), 1e6, (0.375, 0., 1.))
+        if self.pkg == 'ideal':
+            b = mk_template(kb, T0[kb] + (20. if ka == kb else 0.), 1e6, (0.375, 0., 1.))
+        else:
+            b = mk_template({'h': 'g'}.get(kb, kb), {'g': 440., 'h': 480., 'mg': 460.}[kb], 2e5, (0.375, 0., 1.) if kb != 'h' else (1., 0., 0.375))
         return dict(s=[a, b], last=None)
 
     def canon(self, st):
         ids = {}
-        return (fx.stream_digest(st['s'][0], ids), fx.stream_digest(st['s'][1], ids), free_energy_args_clean())
+        return (self.pkg, fx.stream_digest(st['s'][0], ids), fx.stream_digest(st['s'][1], ids), scratch_digest())
 
     def actions(self, st):
         S = st['s']
@@ -641,12 +699,12 @@ class History(System):
                     acts.append(('sep', r, o))
             if sn[r].total > 0 and rich:
                 for at in ('H', 'S'):
-                    for Ts in (300., 400.):
+                    for Ts in self.Tset:
                         acts.append(('set', r, at, Ts))
-                acts.append(('setT', r, 350.))
+                acts.append(('setT', r, self.TsetT))
                 if 250. <= sn[r].T <= 500.:          # the value to restore must belong to a temperature inside the stated range
                     for at in ('H', 'S'):
-                        acts.append(('restore', r, at, 330.))
+                        acts.append(('restore', r, at, self.Trest))
                 for k in (0.5, 2.):
                     acts.append(('scale', r, k))
             elif sn[r].total > 0:
@@ -655,6 +713,7 @@ class History(System):
         return acts
 
     def step(self, st, a):
+        set_pkg(self.pkg)
         S = st['s']
         op = a[0]
         if op == 'mix':
@@ -697,7 +756,7 @@ class History(System):
                 raise Violation('H-read-vs-state', f'after {a!r}: stream {i} reads H={read:.9g}, its state has H={Hs:.9g}', match=dict(op=op, layer='history'),
                                 residual=abs(read - Hs))
         if not free_energy_args_clean():
-            raise Violation('scratch-left', f'mixture._free_energy_args not empty after {a!r}')
+            raise Violation('scratch-left', f'mixture._free_energy_args not empty after {a!r}: {scratch_digest()!r}', match=dict(op=op, pkg=self.pkg))
         st['last'] = obs
         return obs
 
@@ -710,4 +769,8 @@ class History(System):
         return repr((a[0], obs))
 
 
-SYSTEMS = [MixGrid(), SepGrid(), SetterGrid(), History('c02.history', 3, 3), History('c02.history.deep', 2, 4, rich=False)]
+SYSTEMS = [MixGrid(), SepGrid(), SetterGrid(), History('c02.history', 3, 3), History('c02.history.deep', 2, 4, rich=False),
+           # configuration axis "mixture model": the same two-stream histories on a Peng-Robinson EOSMixture package, whose solver scratch
+           # (`mixture._free_energy_args`, shared by every stream of the package) is real hidden state: S / H assignments on one stream are
+           # interleaved with H reads, mixing, separation and H assignment on the other
+           History('c02.history.eos', 2, 3, pkg='PR', kinds=[('g', 'g'), ('g', 'h'), ('g', 'mg')])]
